@@ -7,4 +7,5 @@ Require ExtrOcamlBasic.
 Extraction Language OCaml.
 Extraction "model.ml"
   run_spec step_spec enabled_spec cfg0_spec trace_spec viols_spec depth_spec dead_spec
-  monitor_trace classes_trace.
+  monitor_trace classes_trace smonitor_trace run_pipe_spec
+  trun tcheck tinit tstep1 tfinished ttrace.
